@@ -129,6 +129,9 @@ type wopts struct {
 	M     mini.Mask `json:"M"`
 	R     mini.Mask `json:"R"`
 	Mm    mini.Mask `json:"mm"`
+	W     mini.Mask `json:"W"`  // the resource's writable fields (echoed; set from program.W)
+	Mw    mini.Mask `json:"mw"` // WithMoreWritableFields
+	Aw    bool      `json:"aw"` // WithAllFieldsWritable
 	Ev    optMsg    `json:"ev"`
 	Chk   int       `json:"chk"`
 	Xa    bool      `json:"xa"`
@@ -155,6 +158,7 @@ type program struct {
 	Res   string    `json:"res"` // "coll" | "val"
 	Icpt  string    `json:"icpt"`
 	Equiv bool      `json:"equiv"`
+	W     mini.Mask `json:"W"`
 	Now   int       `json:"now"`
 	Init  []absItem `json:"init"`
 	VInit absVal    `json:"vinit"`
@@ -284,6 +288,16 @@ func writeOptions(o wopts, cb *cbCount) []resource.WriteOption {
 		} else {
 			ws = append(ws, resource.WithMoreUpdateMask(mini.ConcMask(o.Mm)))
 		}
+	}
+	if !o.Mw.Nil {
+		if paths {
+			ws = append(ws, resource.WithMoreWritablePaths(mini.ConcMask(o.Mw).Paths...))
+		} else {
+			ws = append(ws, resource.WithMoreWritableFields(mini.ConcMask(o.Mw)))
+		}
+	}
+	if o.Aw {
+		ws = append(ws, resource.WithAllFieldsWritable())
 	}
 	if o.Ev.Has {
 		ws = append(ws, resource.WithExpectedValue(mini.Conc(o.Ev.V)))
@@ -615,6 +629,13 @@ func resOptions(p program, clk *hclock, rng *scriptRNG) []resource.Option {
 	if p.Equiv {
 		ro = append(ro, resource.WithMessageEquivalence(cmp.Equal()))
 	}
+	if !p.W.Nil {
+		if p.N%2 == 0 {
+			ro = append(ro, resource.WithWritablePaths(&testproto.TestAllTypes{}, mini.ConcMask(p.W).Paths...))
+		} else {
+			ro = append(ro, resource.WithWritableFields(mini.ConcMask(p.W)))
+		}
+	}
 	return ro
 }
 
@@ -786,7 +807,7 @@ func runCollProgram(p program, out *hx.Out) {
 }
 
 func zeroOpts() wopts {
-	return wopts{M: mini.Mask{Nil: true}, R: mini.Mask{Nil: true}, Mm: mini.Mask{Nil: true}, Ev: optMsg{V: mini.Empty()}, First: "g", Wt: -1}
+	return wopts{M: mini.Mask{Nil: true}, R: mini.Mask{Nil: true}, Mm: mini.Mask{Nil: true}, W: mini.Mask{Nil: true}, Mw: mini.Mask{Nil: true}, Ev: optMsg{V: mini.Empty()}, First: "g", Wt: -1}
 }
 
 func valSnapshot(v *resource.Value) absVal {
